@@ -667,7 +667,7 @@ package ech
 //@   modifies dials(0), tc.EncryptedClientHelloConfigList
 //@   ensures[F:one-retry-at-most] dials(0) >= old(dials(0)) + 1 && dials(0) <= old(dials(0)) + 2
 //@   ensures[F:config-kept-unless-retried] dials(0) == old(dials(0)) + 1 ==> tc.EncryptedClientHelloConfigList == old(tc.EncryptedClientHelloConfigList)
-//@   at "goto retry" assert[F:retry-with-those-configs] retried && echErr != nil && len(echErr.RetryConfigList) > 0 && tc.EncryptedClientHelloConfigList == echErr.RetryConfigList &&
+//@   at "retried = true" assert[F:retry-with-those-configs] !retried && echErr != nil && len(echErr.RetryConfigList) > 0 && tc.EncryptedClientHelloConfigList == echErr.RetryConfigList &&
 //@       dials(0) == entry(dials(0)) + 1
 //@   loop 1 "retry:"
 //@     invariant[F:count] dials(0) == entry(dials(0)) + ite(retried, 1, 0) && (!retried ==> tc.EncryptedClientHelloConfigList == entry(tc.EncryptedClientHelloConfigList))
